@@ -1,7 +1,12 @@
 """Gen/Bindings.lean: the published TypeScript types and what the wrappers expect the stdout document to be.
 
 Extracted (syntactically):
-  * every `declare type X = …;` of renamify-core/bindings/*.d.ts (ts-rs output),
+  * every `declare type X = …;` of the ts-rs declarations REGENERATED from the current Rust source on every run:
+    renamify-core/bindings/ is a git-ignored artifact of the test suite (absent in a fresh worktree, stale after a change to
+    a `#[derive(TS)]` type), so it is never read.  `regenerate()` runs the ts-rs export tests with TS_RS_EXPORT_DIR pointing
+    into <verif>/.cache/c19_bindings/ (`cargo test -p renamify-core --lib export_bindings_`, cwd harness/, the harness's
+    target dir, under the cargo build lock) and does the conversion of renamify-core/convert-ts-bindings-to-ambient.js here
+    (drop `import type` lines, `export type` -> `declare type`; no formatter).  A failure raises: no fallback.
   * the type aliases of renamify-vscode/extension/src/{cliService,types}.ts and renamify-mcp/src/renamify-service.ts that the
     result types mention (VersionInfo, Status, SearchResult),
   * per wrapper method that passes `'--output', 'json'`: the CLI command (first argv literal), the declared return type
@@ -16,7 +21,6 @@ Anything else makes the translator raise.
 import os, re
 from checks import common
 
-BINDINGS_DIR = "renamify-core/bindings"
 VSCODE = "renamify-vscode/extension/src"
 MCP = "renamify-mcp/src/renamify-service.ts"
 COMMANDS = ["plan", "search", "rename", "replace", "apply", "undo", "redo", "history", "status", "version"]
@@ -302,11 +306,57 @@ def wrapper_expectations(text, where):
     return out
 
 
+_REGENERATED = {}
+
+
+def regenerate(repo):
+    """ts-rs declarations of the CURRENT source of `repo`, as ambient .d.ts files in a scratch directory -> that directory"""
+    import hashlib
+    import shutil
+    import subprocess
+    repo = os.path.realpath(repo)
+    if repo in _REGENERATED:
+        return _REGENERATED[repo]
+    out = os.path.join(common.CACHE, "c19_bindings", hashlib.sha1(repo.encode()).hexdigest()[:12])
+    with common.build_lock("cargo"):
+        shutil.rmtree(out, ignore_errors=True)
+        os.makedirs(out)
+        lock = os.path.join(common.HARNESS, "Cargo.lock")
+        if not os.path.exists(lock):
+            shutil.copy(os.path.join(repo, "Cargo.lock"), lock)
+        env = dict(common.BASE_ENV)
+        env["TS_RS_EXPORT_DIR"] = out
+        cmd = ["cargo", "test", "--offline", "--manifest-path", os.path.join(repo, "Cargo.toml"), "-p", "renamify-core", "--lib",
+               "export_bindings_"]
+        p = subprocess.run(cmd, cwd=common.HARNESS, env=env, stdout=subprocess.PIPE, stderr=subprocess.STDOUT, timeout=3600)
+        log = p.stdout.decode("utf-8", "replace")
+        if p.returncode != 0:
+            raise TsError("regenerating the ts-rs declarations failed (cargo test … export_bindings_):\n" + log[-1500:])
+        m = re.search(r"test result: ok\. (\d+) passed", log)
+        if not m or int(m.group(1)) == 0:
+            raise TsError("no ts-rs export test ran (`export_bindings_*`): the declarations cannot be regenerated\n" + log[-600:])
+        n = 0
+        for dp, dn, fns in os.walk(out):
+            for fn in sorted(fns):
+                if fn.endswith(".ts") and not fn.endswith(".d.ts"):
+                    src = os.path.join(dp, fn)
+                    text = open(src).read()
+                    lines = [re.sub(r"^export type", "declare type", l) for l in text.split("\n") if not l.startswith("import type")]
+                    with open(os.path.join(out, fn[:-3] + ".d.ts"), "w") as fh:
+                        fh.write("\n".join(lines))
+                    os.unlink(src)
+                    n += 1
+        if n != int(m.group(1)):
+            raise TsError(f"{m.group(1)} export tests ran but {n} declaration files were written to {out}")
+    _REGENERATED[repo] = out
+    return out
+
+
 def load(repo=None):
     """-> (decls: {name: type}, expectations: [(cmd, label, type, how)], mcp_json_cmds)"""
     repo = repo or common.REPO
     decls = {}
-    bdir = os.path.join(repo, BINDINGS_DIR)
+    bdir = regenerate(repo)
     files = sorted(f for f in os.listdir(bdir) if f.endswith(".d.ts"))
     if not files:
         raise TsError("no bindings found")
@@ -396,7 +446,7 @@ def lean_ts(t):
 def run():
     decls, exps = load()
     out = ["import RModel.Model.OutputTypes",
-           "/- GENERATED by translate/bindings.py from renamify-core/bindings/*.d.ts, renamify-vscode/extension/src/{cliService,types}.ts",
+           "/- GENERATED by translate/bindings.py from the ts-rs declarations regenerated from renamify-core/src (TS_RS_EXPORT_DIR), renamify-vscode/extension/src/{cliService,types}.ts",
            "   and renamify-mcp/src/renamify-service.ts — do not edit -/",
            "namespace Gen", "open Output", "",
            "/-- published type declarations (ts-rs bindings + the wrapper-local aliases the result types mention) -/",
